@@ -6,6 +6,7 @@ import (
 	"io/ioutil"
 	"net"
 	"os"
+	"sort"
 	"strings"
 
 	"github.com/containernetworking/cni/pkg/skel"
@@ -178,4 +179,30 @@ func VerifC14_q_fullSyncConverges() {
 		return
 	}
 	verifAssert("C14/full-sync-idempotent", vNat(fake) == first, "synchronising again changed the NAT table")
+	// differential: the full synchronisation installs, for the given ports, the same galaxy rules as the per-pod setup
+	// does on a fresh table (so that the per-pod clean-up, which deletes exactly those rules, finds them)
+	if len(want) > 0 {
+		fake2 := iptablestesting.NewFakeIPTables()
+		h2 := portmapping.VerifNewHandler(fake2)
+		if h2.EnsureBasicRule() == nil && h2.SetupPortMapping(want) == nil {
+			verifAssert("C14/full-sync-equals-per-pod-setup", vGalaxyNatLines(first) == vGalaxyNatLines(vNat(fake2)), "the rules a full synchronisation installs differ from those the per-pod setup installs for the same ports:\nfull sync:\n"+vGalaxyNatLines(first)+"\nper-pod setup:\n"+vGalaxyNatLines(vNat(fake2)))
+		}
+		// ... and cleaning the ports up afterwards leaves no chain or rule of them behind
+		if h.CleanPortMapping(want) == nil {
+			rest := vGalaxyNatLines(vNat(fake))
+			verifAssert("C14/clean-after-full-sync", !strings.Contains(rest, "KUBE-HP-") && !strings.Contains(rest, "--dport"), "after a full synchronisation the per-pod clean-up left a chain or rule of the pod behind:\n"+rest)
+		}
+	}
+}
+
+// vGalaxyNatLines: the sorted rule lines of a NAT dump that belong to the host-port machinery.
+func vGalaxyNatLines(dump string) string {
+	var out []string
+	for _, l := range strings.Split(dump, "\n") {
+		if strings.HasPrefix(l, "-A ") && (strings.Contains(l, "KUBE-HOSTPORTS") || strings.Contains(l, "KUBE-HP-")) {
+			out = append(out, l)
+		}
+	}
+	sort.Strings(out)
+	return strings.Join(out, "\n")
 }
